@@ -10,7 +10,7 @@ checks = [c for c in man["checks"] if not a.ids or c["property_id"] in a.ids]
 def run(c):
     t = time.time()
     cmd = c["quick_cmd"] if a.tier == "quick" else c.get("thorough_cmd", c["quick_cmd"])
-    ev = c["evidence_file"]
+    ev = os.path.join(V, "evidence", os.path.basename(c["evidence_file"]))   # relative to this checkout (snapshots/worktrees)
     try: os.unlink(ev)
     except OSError: pass
     p = subprocess.run(cmd, shell=True, cwd=V, stdout=subprocess.PIPE, stderr=subprocess.STDOUT)
